@@ -13,6 +13,7 @@ ASSUMPTIONS = [
     "A-REAL: floats are mathematical reals",
     "metric / resource / cost attribute names are fixed distinct literals",
     "number of rungs per system concrete (0..3) in proof units; rung contents unbounded",
+    "cost values recorded in a rung are non-negative (cost-aware variant)",
 ]
 
 
@@ -246,3 +247,34 @@ class Prom_on_task_remove:
             "rungs-unchanged": unchanged(s.self._rungs, old.self._rungs),
             "others-kept": forall_keys_kept(s.self._running, old.self._running, old.trial_id),
         }
+
+
+def cumcost(r, f):
+    return sum(r.data[i].cost_val for i in range(0, f + 1))
+
+
+def cost_promotable_spec(r, result):
+    """cost-aware eligibility (bounded shapes): candidate = first un-promoted entry; eligible iff the
+    cumulative cost of all better entries including its own is at most q * total (equality either way)"""
+    n = len(r.data)
+    if n < 2:
+        return result is None
+    thr = cumcost(r, n - 1) * r.prom_quant
+    if result is None:
+        return forall(range(0, n), lambda f: (not (cumcost(r, f) < thr)) if first_unpromoted(r, f) else True)
+    pos = result[1]
+    return first_unpromoted(r, pos) and result[0] == r.data[pos].trial_id and cumcost(r, pos) <= thr
+
+
+@contract(HB_COST + ":CostPromotionRungSystem._find_promotable_trial", props=("C04",))
+class Cost_find_promotable:
+    params = dict(self=Obj("CostPromotionRungSystem"), rung=Obj("CRung"))
+    unbounded = False  # sum over the rung: bounded stand-in only
+    shapes = [{"self._rungs": 0, "*": k} for k in range(0, 5)]
+
+    def requires(s):
+        # costs are accumulated training costs: non-negative (domain invariant of the cost attribute)
+        return {"mode": s.rung._is_min == (s.self._mode == "min"), "costs-nonneg": forall(range(0, len(s.rung.data)), lambda i: s.rung.data[i].cost_val >= 0)}
+
+    def ensures(old, s, result):
+        return {"spec": cost_promotable_spec(old.rung, result), "frame": unchanged(s.rung, old.rung)}
